@@ -105,6 +105,16 @@ func genC09(r *rt.Rand, tier string, idx int) *world.Scenario {
 		for i := 0; i < 1+r.Intn(2); i++ {
 			sc.Plan = append(sc.Plan, &simkv.Fault{Op: []string{"iter", "next"}[r.Intn(2)], Who: "retry.tick", Nth: i + 1, Effect: "err"})
 		}
+		if r.Chance(0.5) {
+			// ... while somebody compacts: a compaction is held below the oldest unresolved revision, whatever
+			// order the repair loop works in
+			var cc world.Client
+			for i := 0; i < 2+r.Intn(4); i++ {
+				cc.Ops = append(cc.Ops, world.Op{K: "sleep", Ms: int64(300 + r.Intn(2500))}, world.Op{K: "compact", Rev: world.Rev{M: "zero"}})
+			}
+			sc.Clients = append(sc.Clients, cc)
+			sc.Class += "+compactions"
+		}
 	}
 	sc.Inactive = swarmSites(r, "kv.commit", "kv.commit.ret", "seq.commit")
 	sc.Extra = map[string]int64{"keep_faults": 1}
